@@ -389,6 +389,11 @@ def run(tree, rep, tier):
             rep.violation("C11.R7", v["key"].replace("C16.R2", "C11.R7"), v["what"] + " (a stale timer handle raises inside the Manager's connection "
                           "made / lost handling before the state machine is told: the Leader never sends RECONNECT and the two sides do not re-converge)",
                           v.get("site"), v.get("detail"), _count=False)
+    # selection needs stop_pending_connectors() to get through its loop: the set it iterates has no writer that a cancelled attempt's
+    # callbacks could run (the rule instances are C17.R5's for _pending_connectors)
+    from .C17 import r5 as c17_r5
+    _import_rule(rep, c17_r5, (tree,), "C17.R5", "C11.R10", lambda k: "_pending_connectors" in k,
+                 " (select_and_stop_remaining raises before the winner is selected: both sides stay CONNECTING although an attempt completed)")
     r8(tree, rep, tier)
 
 
